@@ -301,7 +301,8 @@ def use_class_table(arm_body, varname):
                 pt = render(a["pat"]).replace(" ", "")
                 kinds = re.findall(r"VariableType::(\w+)", pt)
                 for k in kinds:
-                    out[k] = [(render(strip(i["recv"])), render(i["args"][0]).replace(" ", "")) for i in ins]
+                    # (set, use, further conditions inside the arm: a recorded use must not depend on anything else)
+                    out[k] = [(render(strip(i["recv"])), render(i["args"][0]).replace(" ", ""), [fact_str(c_) for c_ in (conditions_to(a["body"], i) or [])] if a["body"] is not i else []) for i in ins]
     return out
 
 
@@ -347,7 +348,7 @@ def rule_uses(ctx):
         tab = use_class_table(a["body"], nm)
         for ty, st in want_sets.items():
             got = tab.get(ty)
-            ok = got is not None and len(got) == 1 and got[0][0] == st and got[0][1] == "VariableUse::new(meta,%s,%s)" % (nm, acc)
+            ok = got is not None and len(got) == 1 and got[0][0] == st and got[0][1] == "VariableUse::new(meta,%s,%s)" % (nm, acc) and not got[0][2]
             ctx.check(R, "Expression::%s/%s-read-recorded" % (variant, ty), ok, "for a %s the arm records %s; expected %s.insert(VariableUse::new(meta, %s, %s))%s" % (ty, got, st, nm, acc, " - an element update reads the previous version of the whole array" if variant == "Update" else ""), site(EI, a))
     # children merged for all three classes
     n = 0
@@ -363,7 +364,7 @@ def rule_uses(ctx):
                 continue
             # the child itself or a loop variable over it
             from c18 import alias_closure
-            reach = alias_closure(a["body"], b)
+            reach = alias_closure(a["body"], b, strict=True)  # the child's uses are merged on every execution
             t = render(a["body"]).replace(" ", "")
             miss = []
             for c in CLASSES:
@@ -391,7 +392,7 @@ def rule_uses(ctx):
     wsets = {"Local": "locals_written", "Signal": "signals_written", "Component": "components_written", "AnonymousComponent": "components_written"}
     for ty, st in wsets.items():
         got = tab.get(ty) or []
-        ok = any(g[0] == st and g[1] == "VariableUse::new(meta,var,&access)" for g in got)
+        ok = any(g[0] == st and g[1] == "VariableUse::new(meta,var,&access)" and not g[2] for g in got)
         ctx.check(R, "Statement::Substitution/%s-write-recorded" % ty, ok, "records %s, expected %s.insert(VariableUse::new(meta, var, &access))" % (got, st), site(SI, arm[0]))
     t = render(arm[0]["body"]).replace(" ", "")
     for c in CLASSES:
